@@ -412,6 +412,43 @@ def list_of_deprecated(ty):
     return False
 
 
+def instance_sequence(chk, ty, raw_t, raw, v1, rng, scratch):
+    """ONE type object used for a sequence of calls: deserialize text 1, deserialize some other texts
+    (one-line, single item, empty, invalid), then serialize the first value.  A config type is a
+    description, not a memory: the text must be the one a fresh object writes, and must load back
+    (on that same object) to the first value."""
+    from mopidy.config import types as T
+
+    rec = cfglib.Recorder()
+    obj = cfglib.to_impl(rec.wrap_transformers(ty))
+    others = [rng.choice(["", "single", "a, b", "x", "1", "true", "\n  one\n  two", "a|b", "bogus ,"]) if rng.random() < 0.6
+              else scratch.subst(cfglib.gen_raw(ty, rng)) for _ in range(rng.randint(1, 3))]
+    case = {"stage": "serialize", "ty": c12.strip_fn(ty), "raw": raw_t, "sequence": others}
+    try:
+        with rec.active():
+            first = obj.deserialize(raw)
+            for t in others:
+                try:
+                    obj.deserialize(t)
+                except ValueError:
+                    pass
+            text = obj.serialize(first, display=False)
+            fresh = cfglib.to_impl(rec.wrap_transformers(ty)).serialize(first, display=False)
+            back = obj.deserialize(text) if isinstance(text, str) and isinstance(fresh, str) and text != fresh else None
+    except Exception as e:  # noqa: BLE001
+        chk.monitor_failure("instance_stateless", {"type": ty[0], "what": "exception"},
+                            f"{type(e).__name__} in a deserialize/deserialize/serialize sequence on one {ty[0]} object", case)
+        return
+    chk.dist("ser:instance-sequence")
+    if isinstance(fresh, T.DeprecatedValue) and isinstance(text, T.DeprecatedValue):
+        return
+    if text != fresh:
+        lost = back is None or not deep_eq(back, first)
+        chk.monitor_failure("instance_stateless", {"type": ty[0], "what": "serialize-depends-on-history"},
+                            f"{ty[0]}: after deserializing other texts the same object serializes the first value as {text!r}, "
+                            f"a fresh object as {fresh!r}" + ("; and that text does not load back to the value" if lost else ""), case)
+
+
 def serialize_stage(chk, scratch, bundled_types):
     from mopidy.config import types as T
 
@@ -463,6 +500,8 @@ def serialize_stage(chk, scratch, bundled_types):
         if out[0] == "ok" and out[1] is not None:
             values.insert(0, out[1])
         work.append((ty, raw_t, values))
+        if out[0] == "ok" and out[1] is not None and rng.random() < 0.35:
+            instance_sequence(chk, ty, raw_t, raw, out[1], rng, scratch)
     for ty, v in direct:
         work.append((ty, None, [v]))
     for ty, raw_t, values in work:
@@ -741,6 +780,28 @@ def format_stage(chk, scratch, schemas, base):
                 isinstance(v, (tuple, frozenset)) or (isinstance(v, str) and any(c in v for c in SPECIAL))
                 for v in config_values(cfg)) else None)
             chk.dist(f"format:{label}")
+            # ---- schema objects are descriptions, not memories: after validating other configs the same
+            # objects must format this config exactly as fresh ones do
+            if raw_t is not None and rng.random() < 0.3 and outs[(False, False)][0] == "text":
+                from mopidy import config as C_
+
+                shared = c12.build_schemas(ss)
+                rec_s = cfglib.Recorder()
+                try:
+                    with rec_s.active():
+                        cfg_a, _ = C_._validate(raw, shared)
+                        other, _ = c12.gen_raw_config(ss, raw_t if ss is schemas else {}, rng, scratch, intensity=6)
+                        C_._validate({s_: {k_: scratch.subst(v_) for k_, v_ in kv_.items()} for s_, kv_ in other.items()}, shared)
+                        C_._validate({s_: {k_: "" for k_ in kv_} for s_, kv_ in raw.items()}, shared)
+                        text_s = C_._format(cfg_a, {}, shared, False, False)
+                    if text_s != outs[(False, False)][1]:
+                        chk.monitor_failure("instance_stateless", {"call": "_format", "what": "format-depends-on-history"},
+                                            "after validating other configs the same schema objects format this config "
+                                            "differently from freshly built ones", {**case, "other": other})
+                    chk.dist("format:shared-schema-sequence")
+                except Exception as e:  # noqa: BLE001
+                    chk.monitor_failure("instance_stateless", {"call": "_format", "what": "exception"},
+                                        f"{type(e).__name__} in a validate/validate/format sequence on shared schema objects", case)
             # ---- T3 at the format level: change every set secret, display output must not move
             nsec_total, cfg2 = 0, {}
             for sec, kv in cfg.items():
